@@ -30,6 +30,7 @@ func C13(r *core.Run) {
 	provRefs(r)
 	provEnumPrefix(r)
 	siblingCountChoices(r)
+	exportsOfThisPackageOnly(r) // an appended service or topic does not change what existing references resolve to
 }
 
 // provNumbers (R-PROV/V1).
